@@ -4,7 +4,7 @@
    [op, s (stream), n, r = [k, v], snap]: what the real call returned and a digest of the pattern object's
    deep state after the call.  den = D(x, n) is computed once per trace; every event must return what the
    stream operators of Pattern.tla say, and the pattern's state must still be the initial one (Immutable).
-   With VERIF_LAWS=1 the laws of PatternModel.tla are evaluated on x as well.  One verdict per trace.     *)
+   What a stream returns after it has signalled its end is not specified.  One verdict per trace.         *)
 EXTENDS Pattern, Json, IOUtils
 Traces == JsonDeserialize(IOEnv.VERIF_TRACES)
 MaxS == 8
